@@ -4,10 +4,10 @@ use crate::util::Witness;
 use sea_query::*;
 
 #[derive(Clone, Copy, Debug)]
-enum Op { Columns(usize), Values(usize), SelectFrom(usize), Default }
+enum Op { Columns(usize), Values(usize), SelectFrom(usize), Default, ValuesFrom(usize, usize) }
 
 fn label(h: &[Op]) -> String {
-    h.iter().map(|o| match o { Op::Columns(k) => format!("columns({k})"), Op::Values(k) => format!("values({k})"), Op::SelectFrom(k) => format!("select_from({k})"), Op::Default => "or_default_values()".into() }).collect::<Vec<_>>().join(";")
+    h.iter().map(|o| match o { Op::Columns(k) => format!("columns({k})"), Op::Values(k) => format!("values({k})"), Op::SelectFrom(k) => format!("select_from({k})"), Op::Default => "or_default_values()".into(), Op::ValuesFrom(x, y) => format!("values_from_panic({x},{y})") }).collect::<Vec<_>>().join(";")
 }
 fn cols(k: usize) -> Vec<Alias> { (0..k).map(|i| Alias::new(["a", "b", "c"][i])).collect() }
 fn row(k: usize, base: i32) -> Vec<SimpleExpr> { (0..k).map(|i| Expr::val(base * 10 + i as i32).into()) .collect() }
@@ -41,6 +41,17 @@ fn check(h: &[Op]) -> Option<Witness> {
                 if r.is_ok() { select = Some(k); rows.clear(); }
             }
             Op::Default => { s.or_default_values(); }
+            Op::ValuesFrom(x, y) => {
+                // a ragged iterator: every row must be checked; a row of the wrong length must not be accepted
+                let rows_in: Vec<Vec<SimpleExpr>> = vec![row(x, i as i32 + 1), row(y, i as i32 + 1)];
+                let mut s2 = s.clone();
+                let r = std::panic::catch_unwind(std::panic::AssertUnwindSafe(|| { s2.values_from_panic(rows_in); s2 }));
+                match r {
+                    Ok(s3) => { if x != ncols || y != ncols { return w(format!("call {i}: values_from_panic accepted rows of {x} and {y} cells for {ncols} columns: {}", s3.to_string(PostgresQueryBuilder)), "a row of the wrong length is rejected"); }
+                                s = s3; if x > 0 { rows.push(i + 1); rows.push(i + 1); select = None; } }
+                    Err(_) => { if x == ncols && y == ncols { return w(format!("call {i}: values_from_panic panicked on well-formed rows"), "accepted"); } }
+                }
+            }
         }
     }
     // rendered form: every VALUES tuple has as many cells as the column list; rows in call order
@@ -67,6 +78,7 @@ pub fn search(_obl: &str) -> Vec<Witness> {
     for k in 0..3 { ops.push(Op::Columns(k)); }
     for k in 0..4 { ops.push(Op::Values(k)); }
     for k in 0..3 { ops.push(Op::SelectFrom(k)); }
+    for (x, y) in [(1, 1), (2, 2), (2, 1), (2, 3), (1, 2)] { ops.push(Op::ValuesFrom(x, y)); }
     let mut found: Vec<Witness> = vec![];
     let n = ops.len();
     for len in 1..=4usize {
@@ -85,7 +97,8 @@ pub fn search(_obl: &str) -> Vec<Witness> {
 pub fn check_one(label_: &str) -> Option<Witness> {
     let h: Vec<Op> = label_.split(';').filter_map(|t| {
         let k: usize = t.trim_end_matches(')').split('(').nth(1).and_then(|x| x.parse().ok()).unwrap_or(0);
-        if t.starts_with("columns") { Some(Op::Columns(k)) } else if t.starts_with("values") { Some(Op::Values(k)) } else if t.starts_with("select_from") { Some(Op::SelectFrom(k)) } else if t.starts_with("or_default") { Some(Op::Default) } else { None }
+        if t.starts_with("values_from_panic") { let v: Vec<usize> = t.trim_end_matches(')').split('(').nth(1).unwrap_or("").split(',').filter_map(|x| x.parse().ok()).collect(); Some(Op::ValuesFrom(*v.first().unwrap_or(&0), *v.get(1).unwrap_or(&0))) }
+        else if t.starts_with("columns") { Some(Op::Columns(k)) } else if t.starts_with("values") { Some(Op::Values(k)) } else if t.starts_with("select_from") { Some(Op::SelectFrom(k)) } else if t.starts_with("or_default") { Some(Op::Default) } else { None }
     }).collect();
     check(&h)
 }
